@@ -4,7 +4,7 @@
    functions (_s) are the declarative definitions of Spec.v.  All theorems hold for every element
    type, every list length, every predicate / comparator satisfying the stated hypothesis. *)
 From Tetl Require Import Lib.Base C06b.Model C06b.Spec C06b.Order C06b.ProofsScan C06b.ProofsSearch
-  C06b.ProofsNum C06b.ProofsBound C06b.ProofsMinMax C06b.ProofsSet C06b.ProofsIncludes C06b.ProofsPerm.
+  C06b.ProofsNum C06b.ProofsBound C06b.ProofsMinMax C06b.ProofsSet C06b.ProofsIncludes C06b.ProofsPerm C06b.SpecFacts.
 From Coq Require Import Permutation.
 
 (* ---- how to read the position combinators of the specification *)
@@ -275,6 +275,33 @@ Print Assumptions C06b_adjacent_difference.
 Theorem C06b_iota : forall T (succ : T -> T) n v, iota_m succ n v = iota_s succ n v.
 Proof. exact (@iota_correct). Qed.
 Print Assumptions C06b_iota.
+
+(* ---- the set-operation specifications obey the multiplicity rules in the standard's wording
+   (m, n = number of elements equivalent to z in the first / second range) and are sorted *)
+Theorem C06b_spec_multiplicities : forall A (lt : A -> A -> bool), strict_weak lt -> forall z l1 l2,
+  count_eqv lt z (merge_s lt l1 l2) = count_eqv lt z l1 + count_eqv lt z l2
+  /\ count_eqv lt z (set_union_s lt l1 l2) = Nat.max (count_eqv lt z l1) (count_eqv lt z l2)
+  /\ count_eqv lt z (set_intersection_s lt l1 l2) = Nat.min (count_eqv lt z l1) (count_eqv lt z l2)
+  /\ count_eqv lt z (set_difference_s lt l1 l2) = count_eqv lt z l1 - count_eqv lt z l2
+  /\ count_eqv lt z (set_symmetric_difference_s lt l1 l2)
+     = (count_eqv lt z l1 - count_eqv lt z l2) + (count_eqv lt z l2 - count_eqv lt z l1).
+Proof.
+  exact (fun A lt SW z l1 l2 =>
+    conj (merge_s_count lt z l1 l2) (conj (set_union_s_count lt SW z l1 l2)
+    (conj (set_intersection_s_count lt SW z l1 l2) (conj (set_difference_s_count lt SW z l2 l1)
+    (set_symmetric_difference_s_count lt SW z l1 l2))))).
+Qed.
+Print Assumptions C06b_spec_multiplicities.
+
+Theorem C06b_spec_outputs_sorted : forall A (lt : A -> A -> bool), strict_weak lt -> forall l,
+  sorted_all lt (stable_sort_s lt l) = true.
+Proof. exact (@stable_sort_s_sorted). Qed.
+Print Assumptions C06b_spec_outputs_sorted.
+
+Theorem C06b_is_permutation_spec_decides : forall A (eqb : A -> A -> bool), (forall x y, eqb x y = true <-> x = y) ->
+  forall l1 l2, is_permutation_s eqb l1 l2 = true <-> Permutation l1 l2.
+Proof. exact (@is_permutation_s_iff). Qed.
+Print Assumptions C06b_is_permutation_spec_decides.
 
 (* ---- the comparator families of the correspondence run satisfy the hypothesis *)
 Theorem C06b_key_comparators_strict_weak : forall A (key : A -> Z), strict_weak (fun x y => (key x <? key y)%Z).
